@@ -362,7 +362,7 @@ def gen(rng, tier):
     cases = []
     thorough = tier == "thorough"
     # 1. EVERY composition of short streams, small MAX_LENGTH
-    n_short, cap = (40, 9) if not thorough else (400, 12)
+    n_short, cap = (40, 9) if not thorough else (150, 11)
     for kind in LINE_KINDS:
         for _ in range(n_short):
             mx = rng.randrange(1, 5)
@@ -376,7 +376,7 @@ def gen(rng, tier):
         mx = rng.choice([1, 2, 3, 9, 10, 11, 12])
         cases.append(fam("netstring", mx, b"", ns_stream(rng, mx, rng.randrange(1, 3))[:cap], "all"))
     # 2. every 2-split and 3-split (and byte-by-byte) of medium streams (<= 24 bytes), MAX_LENGTH 3..10
-    n_med = 16 if not thorough else 400
+    n_med = 16 if not thorough else 150
     for kind in LINE_KINDS:
         for _ in range(n_med):
             mx = rng.randrange(3, 11)
@@ -390,7 +390,7 @@ def gen(rng, tier):
         mx = rng.choice([3, 5, 9, 10, 11, 12])
         cases.append(fam("netstring", mx, b"", ns_stream(rng, mx, rng.randrange(1, 4))[:24], "upto3"))
     # 3. random splits of long streams, larger limits
-    n_long = 200 if not thorough else 6000
+    n_long = 200 if not thorough else 2500
     for _ in range(n_long):
         kind = rng.choice(list(LINE_KINDS) * 2 + list(INT_KINDS) + ["netstring", "netstring"])
         mx = rng.choice([1, 2, 7, 9, 10, 16, 30, 99, 100, 101, 255, 256, 300])
